@@ -52,6 +52,7 @@ func (n *updateNode) Next() (bool, error) {
 	n.execInfo.iterations++
 
 	if n.isUpdating {
+		updatedDocIDs := make(map[string]struct{})
 		for {
 			next, err := n.results.Next()
 			if err != nil {
@@ -62,6 +63,13 @@ func (n *updateNode) Next() (bool, error) {
 			}
 
 			n.currentValue = n.results.Value()
+
+			// A document is updated once: when the update moves its entry in the index the scan is
+			// served from, the scan can meet the document again further on.
+			if _, isUpdated := updatedDocIDs[n.currentValue.GetID()]; isUpdated {
+				continue
+			}
+			updatedDocIDs[n.currentValue.GetID()] = struct{}{}
 
 			docID, err := client.NewDocIDFromString(n.currentValue.GetID())
 			if err != nil {
